@@ -184,13 +184,16 @@ type WorkerResult struct {
 	DetChecks   int               `json:"determinism_checks"`
 	NonDet      string            `json:"nondeterminism,omitempty"`
 	Stalled     string            `json:"stalled,omitempty"`
-	Level       string            `json:"level"`
-	Rule        string            `json:"rule"`
-	Real        []string          `json:"real"`
-	Stub        []string          `json:"stub"`
-	Assumptions []string          `json:"assumptions"`
-	Violation   *ReplayFile       `json:"violation,omitempty"`
-	ReplayPath  string            `json:"replay_path,omitempty"`
+	// HarnessFailures counts runs whose scenario preconditions failed (violation class ".../harness").
+	HarnessFailures int         `json:"harness_failures,omitempty"`
+	HarnessDetail   string      `json:"harness_detail,omitempty"`
+	Level           string      `json:"level"`
+	Rule            string      `json:"rule"`
+	Real            []string    `json:"real"`
+	Stub            []string    `json:"stub"`
+	Assumptions     []string    `json:"assumptions"`
+	Violation       *ReplayFile `json:"violation,omitempty"`
+	ReplayPath      string      `json:"replay_path,omitempty"`
 }
 
 func envInt(name string, def int) int {
@@ -479,6 +482,16 @@ func workerMain(t *testing.T, p *Prop, tier string) {
 			}
 		}
 		if out.Viol == nil {
+			continue
+		}
+		if strings.HasSuffix(out.Viol.Class, "/harness") {
+			// the scenario could not be set up or driven as designed (a precondition of the oracle failed):
+			// that is no evidence about the property either way, so it is reported as harness trouble
+			// (exit 2), never as a violation
+			res.HarnessFailures++
+			if res.HarnessDetail == "" {
+				res.HarnessDetail = fmt.Sprintf("run %d: %s", run, out.Viol.Detail)
+			}
 			continue
 		}
 		// known finding?
